@@ -34,18 +34,18 @@ fn value_u64(v: &Value) -> Option<u64> {
 }
 
 pub fn parse_raw(bytes: &[u8]) -> Option<RawWrapped> {
-    let v: Value = ciborium::from_reader(bytes).ok()?;
-    let arr = v.as_array()?;
-    if arr.len() < 6 {
-        return None;
-    }
+    // Read the six leading elements the way a serde tuple visitor does (it takes six elements
+    // and neither checks the declared array length nor trailing data), so that the harness can
+    // extract the fields of everything the implementation's decoder is able to read.
+    let (version, key, signature, timestamp, logical, body): (Value, Value, Value, Value, Value, Value) =
+        ciborium::from_reader(bytes).ok()?;
     Some(RawWrapped {
-        version: value_u64(&arr[0])?,
-        key: value_bytes(&arr[1])?,
-        signature: value_bytes(&arr[2])?,
-        timestamp: value_u64(&arr[3])?,
-        logical: value_u64(&arr[4])?,
-        body: arr[5].as_text().map(|s| s.to_string()),
+        version: value_u64(&version)?,
+        key: value_bytes(&key)?,
+        signature: value_bytes(&signature)?,
+        timestamp: value_u64(&timestamp)?,
+        logical: value_u64(&logical)?,
+        body: body.as_text().map(|s| s.to_string()),
     })
 }
 
